@@ -3,7 +3,9 @@ sys.path.insert(0, '/verif')
 from pyvc import verify
 mods = sys.argv[1].split(',')
 key = sys.argv[2]
-rep = verify.run_unit(key, mods, tier='quick', timeout_ms=int(sys.argv[3]) if len(sys.argv)>3 else 10000)
+import os
+if len(sys.argv)>4 and not sys.argv[4].startswith("-"): os.environ["PYVC_ONLY"]=sys.argv[4]
+rep = verify.run_unit(key, mods, tier="quick", timeout_ms=int(sys.argv[3]) if len(sys.argv)>3 else 10000)
 if rep['error']:
     print('ERROR', rep['error'].get('kind'), rep['error'].get('msg'), 'line', rep['error'].get('line')); print(rep['error'].get('trace',''))
 for o in rep['obligations']:
